@@ -6,6 +6,7 @@ from ..core import Result
 PID = "C02"
 LEVEL = "exploration"
 RULE = (
+    'One cold-started spec in six is simulated with unit_time 2 or 3 (absence lists in time units, steps and logs indexed by step). '
     "Hypothesis-generated models (profiles W and F, multi-worker tasks, solo resources, per-resource and project-wide absences, default progress, zero work amounts, automatic tasks with unit rates 1/4..2; 1 in 5 specs in arbitrary-float mode) simulated once. Oracle per (task, step): remaining[k-1]-remaining[k] equals the reference contribution computed from the allocation snapshot, the spec's skill maps and the absence lists (exact for dyadic values, 1e-9 relative in float mode); unchanged in every other state; FINISHED never before remaining<1e-10, remaining reported 0.0 afterwards, and FINISHED at the next step once remaining is zero and the finish dependencies held at the end of the previous step. Non-trivial = a task that finishes and had a step with >=2 contributors or an absent contributor; distinct by spec hash."
 )
 ASSUMPTIONS = [
@@ -16,7 +17,7 @@ TECHNIQUE = 'property-based testing (Hypothesis): generated models, per-step wor
 LEVEL_TEXT = 'Generated-input search: every (task, step) pair of every generated run is balanced against an independent contribution model; not a proof.'
 LEVEL_NOTE = "Deterministic skills (sd 0). Allocation at each step is read from the live 'allocated' snapshot (needed to tell a WORKING task from a READY one on project-wide absence steps, where both are logged READY)."
 
-CFG = gen.Cfg(warm_modes=["morph", "graft", "append", "nolog"], warm=3, facilities=True, float_mode=5, max_time=[40, 80], abs_p=2, abs_size=6, abs_max=12)
+CFG = gen.Cfg(unit_time=6, warm_modes=["morph", "graft", "append", "nolog"], warm=3, facilities=True, float_mode=5, max_time=[40, 80], abs_p=2, abs_size=6, abs_max=12)
 
 
 def strategy(tier):
